@@ -289,6 +289,7 @@ func confirmAndWrite(t *testing.T, s *Scenario, c *Case, v *Violation, seed uint
 
 func runReplay(t *testing.T) {
 	warmup()
+	TraceWanted = *fVerbose
 	c, err := LoadCase(*fReplay)
 	if err != nil {
 		fmt.Fprintln(os.Stderr, "load replay:", err)
@@ -660,6 +661,7 @@ func runDeterminism(t *testing.T) {
 	// Generates N cases from the seed and prints "<index> <digest> <steps> <viol>" for each;
 	// the selftest script runs this in several processes / GOMAXPROCS and diffs the output.
 	warmup()
+	TraceWanted = *fDump >= 0
 	s := scenarioFor(t, *fProp)
 	flag.Set("rapid.nofailfile", "true")
 	flag.Set("rapid.seed", fmt.Sprint(*fSeed))
